@@ -21,6 +21,7 @@ package impl
 
 import (
 	"bytes"
+	"sort"
 	"strconv"
 	"strings"
 
@@ -137,6 +138,13 @@ func sxNoPosSD(d *ast.SchemaDocument) string {
 }
 
 func sxNoPosS(d *ast.Schema) string {
+	// the order inside PossibleTypes / Implements follows the definition order of the source,
+	// which FormatSchema replaces by the alphabetical order: compare them as sets
+	for _, m := range []map[string][]*ast.Definition{d.PossibleTypes, d.Implements} {
+		for _, l := range m {
+			sort.SliceStable(l, func(i, j int) bool { return l[i] != nil && l[j] != nil && l[i].Name < l[j].Name })
+		}
+	}
 	s := Sx{NoPos: true}
 	s.LoadedSchema(d)
 	// the BuiltIn flag of a definition is a property of the source, not of the type system
